@@ -867,3 +867,75 @@ SPECS["C05"]["theorems"] += [
 SPECS["C05"]["level_text"] += (' Run level: a whole Op history (whose backfill tokens are its own) and a whole HCOBS encoder run (no side condition) is '
     'ONE history of this vocabulary on the world whose handle table carries the tokens (op_run_is_wrun, enc_prefix_is_wrun, enc_run_is_wrun), so those '
     'worlds are Reachable exactly as C05 / C10 / C20 quantify.')
+
+# ---- track abt2 (claim-audit gaps 7, 10, 18): statement-strength additions for C13 / C18 / C19 ----
+SPECS["C13"]["theorems"] += [
+    "Woodpile.Props.C13.sc_fresh_update_accepted",
+    "Woodpile.Props.C13.sc_accepted_update_completes",
+    "Woodpile.Props.C13.sc_update_completed",
+    "Woodpile.Props.C13.sc_update_ignored_covered",
+    "Woodpile.Props.C13.sc_bookkeeping_exact",
+    "Woodpile.Props.C13.sc_calls_sound",
+    "Woodpile.Props.C13.sc_real_time_order",
+    "Woodpile.Props.C13.sc_completed_update_visible",
+    "Woodpile.Props.C13.ra_fresh_update_accepted",
+    "Woodpile.Props.C13.ra_accepted_update_completes",
+    "Woodpile.Props.C13.ra_update_completed",
+    "Woodpile.Props.C13.ra_update_ignored_covered",
+    "Woodpile.Props.C13.ra_view_monotone",
+    "Woodpile.Props.C13.ra_view_monotone_run",
+    "Woodpile.Props.C13.ra_sync_transfers_view",
+    "Woodpile.Props.C13.ra_bookkeeping_exact",
+    "Woodpile.Props.C13.ra_calls_sound",
+    "Woodpile.Props.C13.ra_return_view_kept",
+    "Woodpile.Props.C13.ra_program_order",
+    "Woodpile.Props.C13.ra_update_then_snapshot",
+    "Woodpile.Props.C13.ra_own_update_visible",
+    "Woodpile.Props.C13.ra_sync_order",
+    "Woodpile.Props.C13.ra_synced_update_visible",
+    "Woodpile.Props.C13.call_arguments_fixed",
+    "Woodpile.Props.C13.sc_only_holder_publishes",
+    "Woodpile.Props.C13.ra_only_holder_publishes",
+    "Woodpile.Props.C13.valid_update_returns",
+]
+SPECS["C18"]["theorems"] += [
+    "Woodpile.Props.C18.sc_retry_only_on_publish_during",
+    "Woodpile.Props.C18.ra_retry_only_on_publish_during",
+    "Woodpile.Props.C18.ra_solo_snapshot_terminates_uniform",
+    "Woodpile.Props.C18.ra_solo_is_run",
+    "Woodpile.Props.C18.ra_latest_admissible",
+    "Woodpile.Props.C18.unlocked_is_abt_snapshot",
+    "Woodpile.Props.C18.ra_solo_latest_terminates",
+]
+SPECS["C19"]["theorems"] += [
+    "Woodpile.Props.C19.chkNat_is_chkReal",
+    "Woodpile.Props.C19.init_cells_agree",
+    "Woodpile.Props.C19.seq_update_refines",
+    "Woodpile.Props.C19.seq_snapshot_refines",
+    "Woodpile.Props.C19.try_update_differs_only_when_poisoned",
+]
+SPECS["C13"]["level_text"] += (' Track abt2: the history is tied to CALLS. State form: an accepted call\'s pair is in hist at an index covered by '
+    'its own view of sequence (sc/ra_update_completed), an ignored call has seen a strictly newer published pair (…_ignored_covered), a fresh valid '
+    'argument is not ignored and then completes in four always-enabled steps (…_fresh_update_accepted, …_accepted_update_completes). Call form: '
+    'SC/RA.GReachable run the same step function next to pure bookkeeping (step counter, operation in progress, one CallRec per completed call with '
+    'the caller\'s view of sequence at start/return); the bookkeeping is exact (…_bookkeeping_exact); every completed call satisfies Mach.RecOK '
+    '(…_calls_sound); END TO END: an update(b,v) that returned, or a try_update(b,v)=true, whose return view is included in a snapshot\'s start view '
+    '(U.vRet <= S.vStart: happens-before) makes that snapshot return base >= b (ra_update_then_snapshot); the inclusion holds for calls of one thread in '
+    'program order (ra_program_order, ra_own_update_visible) and for a call of a thread that synchronised with the updater after the update returned (ra_sync_order, ra_synced_update_visible), views only grow and sync transfers them (ra_view_monotone(_run), ra_sync_transfers_view); '
+    'on SC "before" is real time: U\'s last step precedes S\'s start label (sc_real_time_order, sc_completed_update_visible).')
+SPECS["C18"]["level_text"] += (' Track abt2: ONE uniform termination statement on the view machine (ra_solo_snapshot_terminates_uniform: for every '
+    'adversarial but admissible reads-from strategy the solo reader returns within soloMeasure own steps; admissible strategies exist, '
+    'ra_latest_admissible, and reading the latest message gives the SC bound 6, ra_solo_latest_terminates; RA.solo is a machine run, ra_solo_is_run); a retry implies a newer sequence message that is beyond the snapshot\'s start '
+    '(start <= sq < new: …_retry_only_on_publish_during, both machines); unlocked_is_abt_snapshot is about the NFS model\'s own getBaseTimeUnlocked: '
+    'from any reachable SC state (writer frozen holding the lock, mutex poisoned or not) four loads, nothing shared changes, same pair.')
+SPECS["C19"]["level_text"] += (' Track abt2: the cell of the model is no longer an independent definition: cellUpdate / cellSnapshot / '
+    'getBaseTimeUnlocked ARE the AtomicBaseTime programs of C13/C18 (update, try_update, snapshot) run alone on the SC machine at the real voucher check '
+    'from a state whose writer mutex is free and unpoisoned (seq_update_refines, seq_snapshot_refines, init_cells_agree, chkNat_is_chkReal); try_update '
+    'differs from update only on a poisoned mutex (try_update_differs_only_when_poisoned), which no_panic keeps unreachable. nfs_voucher.rs has NO '
+    'module-wide mutex: the C19 theorems cover sequential histories only; for concurrent callers only C13/C18 on the cell carry over.')
+# C19's cell is, by C19.seq_update_refines / seq_snapshot_refines, the AtomicBaseTime programs of C13/C18 run alone; those programs
+# are tied to vouched_time/src/atomic_base_time.rs (a C19 anchor: "monotonic filter in the atomic cell") by the H3 trace validation
+# of family `abt`, so the C19 check runs that family too (a changed stale test in advance_once - e.g. `update.0 + 1 < current` -
+# moves the NFS base time backwards by 1 ms only for a file exactly 1 ms older than the base, which the real-file family `nfs`
+# almost never presents; found as a missed mutation by track abt2).
+SPECS["C19"]["families"] += [dict(name="abt", quick=600, thorough=20000)]
